@@ -997,6 +997,9 @@ def _code_to_slice__arglikes(
             fst_ = code_as_expr(code, options, self.root._parse_params)
             ast_ = fst_.a
 
+        if codea_cls in (Yield, YieldFrom) and not fst_.pars().n:  # a yield can never be an unparenthesized argument
+            fst_._parenthesize_grouping()
+
     elif codea_cls is keyword:  # if putting keyword as one then should be passed through as such, could do as one below with code_as__arglikes(coerce=True) but this is more optimal
         if codea is not code:  # is FST
             fst_ = code
